@@ -11,6 +11,7 @@ import (
 	"os"
 	"os/exec"
 	"path/filepath"
+	"regexp"
 	"strings"
 	"sync"
 	"text/template"
@@ -30,16 +31,17 @@ type Item struct {
 	TokImp bool          `json:"-"`     // header must import the token package ($T used)
 	RtImp  bool          `json:"-"`     // header must import verif/rt (actions call rt.A)
 	// filled by Build
-	Exit      int               `json:"exit"`
-	Stdout    string            `json:"stdout"`
-	GenOK     bool              `json:"gen_ok"`
-	HasLexer  bool              `json:"has_lexer"`
-	HasParser bool              `json:"has_parser"`
-	Lex       *gen.LexTables    `json:"lex,omitempty"`
-	Tok       *gen.TokenMap     `json:"tok,omitempty"`
-	Par       *gen.ParserTables `json:"par,omitempty"`
-	ReadErr   string            `json:"read_err,omitempty"`
-	Extra     map[string]any    `json:"extra,omitempty"`
+	Exit       int               `json:"exit"`
+	Stdout     string            `json:"stdout"`
+	GenOK      bool              `json:"gen_ok"`
+	HasLexer   bool              `json:"has_lexer"`
+	HasParser  bool              `json:"has_parser"`
+	Lex        *gen.LexTables    `json:"lex,omitempty"`
+	Tok        *gen.TokenMap     `json:"tok,omitempty"`
+	Par        *gen.ParserTables `json:"par,omitempty"`
+	ReadErr    string            `json:"read_err,omitempty"`
+	CompileErr string            `json:"compile_err,omitempty"` // first compiler message when the generated code does not build
+	Extra      map[string]any    `json:"extra,omitempty"`
 }
 
 // NewTextItem is an item given as raw grammar text (hostile spellings); reference models that need the AST do not apply.
@@ -61,10 +63,12 @@ type Corpus struct {
 	ExtraEnv []string
 	Root     string
 	Items    []*Item
-	Bin      string
-	tools    *gen.Tools
-	Pkgs     int
-	clean    func()
+	// Dropped: items generated with exit status 0 whose packages do not compile (excluded from the driver)
+	Dropped []*Item
+	Bin     string
+	tools   *gen.Tools
+	Pkgs    int
+	clean   func()
 }
 
 func (c *Corpus) Close() { c.clean() }
@@ -155,27 +159,47 @@ func BuildOpt(t *gen.Tools, pool *gen.Pool, tag string, items []*Item, race bool
 	if firstErr != nil {
 		return c, firstErr
 	}
-	var pkgs []string
-	for _, it := range c.Items {
-		if it.GenOK {
-			pkgs = append(pkgs, "vt/g/"+it.ID)
+	// compile; items whose generated code does not compile are dropped (reported in CompileErr, they are C09's
+	// subject) and the rest is built again, so that one broken output does not take the whole corpus down
+	reFail := regexp.MustCompile(`(?m)^(?:# vt/)?g/(g[0-9a-f]+)/`)
+	for round := 0; ; round++ {
+		var pkgs []string
+		for _, it := range c.Items {
+			if it.GenOK {
+				pkgs = append(pkgs, "vt/g/"+it.ID)
+			}
 		}
-	}
-	c.Pkgs = len(pkgs)
-	var buf bytes.Buffer
-	template.Must(template.New("m").Parse(mainTmpl)).Execute(&buf, pkgs)
-	os.MkdirAll(filepath.Join(root, "drv"), 0o777)
-	os.WriteFile(filepath.Join(root, "drv", "main.go"), buf.Bytes(), 0o666)
-	c.Bin = filepath.Join(root, "drv.bin")
-	args := []string{"build", "-trimpath", "-o", c.Bin}
-	if race {
-		args = append(args, "-race")
-	}
-	cmd := exec.Command("go", append(args, "./drv")...)
-	cmd.Dir = root
-	cmd.Env = gen.GoEnv()
-	if out, err := cmd.CombinedOutput(); err != nil {
-		return c, fmt.Errorf("corpus does not compile: %v\n%s", err, clip(string(out), 6000))
+		c.Pkgs = len(pkgs)
+		var buf bytes.Buffer
+		template.Must(template.New("m").Parse(mainTmpl)).Execute(&buf, pkgs)
+		os.MkdirAll(filepath.Join(root, "drv"), 0o777)
+		os.WriteFile(filepath.Join(root, "drv", "main.go"), buf.Bytes(), 0o666)
+		c.Bin = filepath.Join(root, "drv.bin")
+		args := []string{"build", "-trimpath", "-o", c.Bin}
+		if race {
+			args = append(args, "-race")
+		}
+		cmd := exec.Command("go", append(args, "./drv")...)
+		cmd.Dir = root
+		cmd.Env = gen.GoEnv()
+		out, err := cmd.CombinedOutput()
+		if err == nil {
+			break
+		}
+		failed := map[string]bool{}
+		for _, m := range reFail.FindAllStringSubmatch(string(out), -1) {
+			failed[m[1]] = true
+		}
+		if len(failed) == 0 || round >= 4 {
+			return c, fmt.Errorf("corpus does not compile: %v\n%s", err, clip(string(out), 6000))
+		}
+		for _, it := range c.Items {
+			if failed[it.ID] && it.GenOK {
+				it.GenOK = false
+				it.CompileErr = firstLineWith(string(out), "g/"+it.ID+"/")
+				c.Dropped = append(c.Dropped, it)
+			}
+		}
 	}
 	return c, nil
 }
@@ -288,4 +312,13 @@ func (e *CrashError) Summary() string {
 
 func (e *CrashError) Error() string {
 	return fmt.Sprintf("driver shard %d: %v (item %s): %s", e.Shard, e.Err, e.Item(), e.Summary())
+}
+
+func firstLineWith(text, sub string) string {
+	for _, l := range strings.Split(text, "\n") {
+		if strings.Contains(l, sub) && !strings.HasPrefix(l, "#") {
+			return l
+		}
+	}
+	return ""
 }
